@@ -295,7 +295,7 @@ CLAIMS: dict[str, tuple[str, str, str, str]] = {
         "with quotes and lists nested to any depth, every content line of a code_block/fence is, after at most pad spaces, a suffix of "
         "the source line its map points to; fence markup+info is the tail of its opening line; hr markup is read off the tail of its "
         "line); imini_codespans (Props/C08d: in the inline sub-parser text/newline/escape/backticks every code_inline token holds "
-        "codeSpanContent of exactly the text between two equal backtick runs of the source, its markup being that run); m_verbatim (Props/C08e: with html_block and lheading in the chain — nine of eleven block rules — every html_block token holds, line for line with its line feed, the lines its map points to with only a prefix removed, and every heading_open's markup is a run of # or the setext underline character). MISSING: list/quote markup, list start/info, the exact removed width inside containers: oracle reconstructs every content line from its source line and counts markers. Tie: every real "
+        "codeSpanContent of exactly the text between two equal backtick runs of the source, its markup being that run); m_verbatim (Props/C08e: with html_block and lheading in the chain — nine of eleven block rules — every html_block token holds, line for line with its line feed, the lines its map points to with only a prefix removed, and every heading_open's markup is a run of # or the setext underline character); full_verbatim (Props/C08f: the same for the stream MarkdownIt.parse returns end to end — every token of the whole parse is a block token of the block parse with, at most, other children: full_tokens_of_block). MISSING: list/quote markup, list start/info, the exact removed width inside containers: oracle reconstructs every content line from its source line and counts markers. Tie: every real "
         "getLines call, code span and hr traced and compared with the model.",
         NOTE,
         "Lean 4 proof (loop invariant of the indent-stripping scan; string lemmas) + per-call traces + reconstruction oracle",
